@@ -108,6 +108,7 @@ class Engine:
         self.inlined = set()
         self.assumed = set()     # contracts used at call sites
         self.noinline = set()
+        self.partial_classes = set()
         self.npaths = 0
         self.axioms = []         # global background axioms (z3), listed as trusted
         self.class_models = {}   # real class -> T.Ref for isinstance on SRef
@@ -435,6 +436,14 @@ class Engine:
         for s, v in self.ev(node.test, st):
             if isinstance(v, ExcVal):
                 yield s, ("raise", v)
+                continue
+            if getattr(self, "assert_raises", False):
+                # asserts used as argument validation (the unit allows AssertionError as a documented rejection)
+                for s2, b in self.truth(s, v, f"assert{self.line(s, node)}"):
+                    if b:
+                        yield s2, NORMAL
+                    else:
+                        yield s2, ("raise", ExcVal(AssertionError, (), self.where(s2, node)))
                 continue
             bv = self.as_bool_value(s, v)
             if isinstance(bv, SBool):
@@ -1496,6 +1505,10 @@ class Engine:
         try:
             a = inspect.getattr_static(cls, name)
         except AttributeError:
+            if cls in getattr(self, "partial_classes", ()):
+                # the contract models only the fields it names: reading another instance field is outside the contract
+                # (undecided), never an AttributeError of the real code
+                raise Unsupported(f"instance field {getattr(cls, '__name__', cls)}.{name} is not part of the contract's model")
             yield st, ExcVal(AttributeError, (name,), self.where(st, node) if node else "")
             return
         if isinstance(a, property):
